@@ -4,6 +4,9 @@ Driver ops for objects with a cached identity (Model/CodecLife.lean), C08:
   life tx|hdr <encoding> <source> <step>...
       source: bytes (NewTransaction / NewBlockHeader) | lit (Decode, no Init) | json=<id|-> | jsonsz=<id|->
       step:   init | copy | set=<fieldNumber>=<value> | addsig=<hex> | sign=<signature>[=…]
+              | setsig=<index>=<hex>   (element of the signatures array replaced; no-op beyond the end)
+              a value `nil` (Go: nil byte string / nil array element) is the empty byte string of the model:
+              absent and empty are identified by the encoder
       output: ok then, per source/step, <cached id>/<cached size>/<first 8 bytes of hash(Encode())>
   blkjson <header encoding> <header id|-> <tx encoding>:<id|->,… | -
       a Block unmarshalled from JSON, then Block.Init; output: ok <header id> <tx id>/<size>,… | -
@@ -29,11 +32,16 @@ def fieldAt : List Field → Nat → Nat → Option (Nat × Kind)
   | [], _, _ => none
   | f :: fs, num, i => if f.num == num then some (i, f.kind) else fieldAt fs num (i + 1)
 
+/-- hex, `-` (empty) or `nil` (Go nil: encodes as the empty byte string) -/
+def bytesOrNil (s : String) : Option Bytes :=
+  if s == "nil" then some [] else Hex.decode? s
+
 def setVal (k : Kind) (s : String) : Option Value :=
   match k with
   | .uint | .uint32 => s.toNat?.map Value.uint
   | .bool => if s == "1" then some (.bool true) else if s == "0" then some (.bool false) else none
-  | .bytes | .string => (Hex.decode? s).map Value.bytes
+  | .bytes => (bytesOrNil s).map Value.bytes
+  | .string => (Hex.decode? s).map Value.bytes
   | _ => none
 
 /-- the first word after the encoding: where the object comes from -/
@@ -75,12 +83,20 @@ def parseStep (o : Obj) (w : String) : Option Step :=
         | some (i, k) => (setVal k v).map (Step.set i)
     | ["addsig", hex] =>
       -- append to the `signatures` array of a transaction (field 7)
-      match fieldAt s.enc 7 0, Hex.decode? hex with
+      match fieldAt s.enc 7 0, bytesOrNil hex with
       | some (i, .bytesArr), some sig =>
         match o.vals[i]? with
         | some (.bytesArr l) => some (.set i (.bytesArr (l ++ [sig])))
         | _ => none
       | _, _ => none
+    | ["setsig", idx, hex] =>
+      -- assignment to one element of the `signatures` array
+      match fieldAt s.enc 7 0, bytesOrNil hex, idx.toNat? with
+      | some (i, .bytesArr), some sig, some k =>
+        match o.vals[i]? with
+        | some (.bytesArr l) => some (.set i (.bytesArr (l.set k sig)))
+        | _ => none
+      | _, _, _ => none
     | "sign" :: hex :: _ =>
       match fieldAt s.enc 15 0, Hex.decode? hex with
       | some (i, .bytes), some sig => some (.sign i sig)
